@@ -371,6 +371,16 @@ fn check_mapping_empty(
         all_keys.insert(k.clone());
     }
 
+    // A finite index signature in pos requires each of its keys, like named properties: check them
+    // one by one; nothing is left for the index dimension then
+    let pos_index_is_finite = !is_map
+        && matches!(&pos.indexed_properties, Some(idx) if is_finite_string_set(&idx.key));
+    if pos_index_is_finite && let Some(idx) = &pos.indexed_properties {
+        for k in extract_keys_from_type(&idx.key) {
+            all_keys.insert(k);
+        }
+    }
+
     // Add keys from finite index signatures in neg
     if let Some(idx) = &current_neg.indexed_properties
         && is_finite_string_set(&idx.key)
@@ -413,7 +423,11 @@ fn check_mapping_empty(
         }
     }
 
-    let v_p_idx = get_index_value_exact(&pos);
+    let v_p_idx = if pos_index_is_finite {
+        Rc::new(SemTypeContext::optional_prop())
+    } else {
+        get_index_value_exact(&pos)
+    };
     let v_n_idx = get_effective_index_value(&pos, current_neg, ctx)?;
 
     let diff_idx = v_p_idx.diff(&v_n_idx)?;
